@@ -1,4 +1,5 @@
-(* Executable model of the numeral classification of LuaHelper's parser (property C03, numeral part):
+(* Executable model of the numeral classification of LuaHelper's parser (property C03, numeral part),
+   as of /repo commit 8dd49c7 (isLuajitSimpleInterger / isLuajitHexInteger repaired):
      langserver/check/compiler/parser/parser_number.go  parseInteger parseFloat parseLuajitNum parseHexFloat
                                                         isSimpleInteger isHexInteger isLuajitSimpleInterger
                                                         isLuajitHexInteger parseDigit reHexFloat
@@ -258,15 +259,19 @@ Definition is_simple_integer (str : list N) : Res bool :=
   if (len str =? 1)%Z && is_sign c0 then Ok false
   else Ok (forallb is_digit (if is_sign c0 then tl str else str)).
 
+(* isLuajitSimpleInterger (after fix 8dd49c7): loc = index of the first non-digit (-1 if none), digits = number of
+   digits before it; "one or more digits followed by exactly ll or ull" *)
 Definition is_luajit_simple_integer (str : list N) : Res bool :=
   do c0 <- idx str 0;
   if (len str =? 1)%Z && is_sign c0 then Ok false else
-  let loc := match (if is_sign c0 then first_fail is_digit (tl str) 1 else first_fail is_digit str 0) with
-             | Some i => i | None => 0%Z end in
-  if negb (loc =? 0)%Z then
+  match (if is_sign c0 then first_fail is_digit (tl str) 1 else first_fail is_digit str 0) with
+  | None => Ok false                                              (* loc < 0 *)
+  | Some loc =>
+    let digits := (loc - (if is_sign c0 then 1 else 0))%Z in
+    if (digits =? 0)%Z then Ok false else
     do suffix <- slice_from str loc;
-    if negb (beq_bytes suffix s_ull) && negb (beq_bytes suffix s_ll) then Ok false else Ok true
-  else Ok true.
+    Ok (beq_bytes suffix s_ull || beq_bytes suffix s_ll)
+  end.
 
 (* common head of isHexInteger / isLuajitHexInteger: Ok None = "return false", Ok (Some rest) = str[i:] *)
 Definition hex_head (str : list N) : Res (option (list N)) :=
@@ -288,16 +293,19 @@ Definition is_hex_integer (str : list N) : Res bool :=
   do h <- hex_head str;
   match h with None => Ok false | Some rest => Ok (forallb is_hex_lc rest) end.
 
+(* isLuajitHexInteger (after fix 8dd49c7): "one or more hex digits followed by exactly ll or ull" *)
 Definition is_luajit_hex_integer (str : list N) : Res bool :=
   do h <- hex_head str;
   match h with
   | None => Ok false
   | Some rest =>
-    let loc := match first_fail is_hex_lc rest 0 with Some i => i | None => 0%Z end in
-    if negb (loc =? 0)%Z then
+    match first_fail is_hex_lc rest 0 with
+    | None => Ok false                                            (* loc = -1 *)
+    | Some loc =>
+      if (loc <=? 0)%Z then Ok false else
       do suffix <- slice_from rest loc;
-      if negb (beq_bytes suffix s_ull) && negb (beq_bytes suffix s_ll) then Ok false else Ok true
-    else Ok true
+      Ok (beq_bytes suffix s_ull || beq_bytes suffix s_ll)
+    end
   end.
 
 (* the shared tail of parseInteger / parseLuajitNum for text containing "0x" *)
@@ -409,45 +417,42 @@ Definition classify_number (tok : list N) : Res num_class :=
 Definition number_accepted (tok : list N) : bool :=
   match classify_number tok with Ok (NumInt _) | Ok NumFloat => true | _ => false end.
 
-(* ---------- guard and deviation classes (Proofs/NumberProofs.v, correspondence leg c03.number) ---------- *)
+(* ---------- guard (Proofs/NumberProofs.v, correspondence leg c03.number) ---------- *)
 
 (* no white space, no underscore, no leading sign - true of every text cut out by the lexer's scanNumber *)
 Definition num_clean (s : list N) : bool :=
   forallb (fun c => negb (is_space c) && negb (c =? c_us)) s &&
   match s with c :: _ => negb (is_sign c) | [] => true end.
 
-(* the classes below are stated on the lower-cased text t = to_lower s *)
+(* what parseLuajitNum cuts off: three characters if the third-last is 'u', else two (for len >= 3) *)
+Definition strip23 (t : list N) : list N :=
+  let n := length t in
+  if nth (n - 3) t 0 =? c_u then firstn (n - 3) t else firstn (n - 2) t.
 
-(* short_junk: one or two characters, the first not a digit, and not '.' digit:
-   isLuajitSimpleInterger says true (loc == 0) and parseLuajitNum evaluates str[len(str)-3] -> panic *)
+(* the last n characters *)
+Definition lastn (n : nat) (s : list N) : list N := skipn (length s - n) s.
+
+(* ---------- HISTORICAL: the three classes of lower-cased texts on which the code deviated from the numeral
+   grammar before fix 8dd49c7 (`loc := 0` meant both "not found" and "found at index 0" in the two
+   isLuajit* tests).  The model above describes the fixed code; these predicates are used only by the
+   `_repaired` examples of Proofs/NumberProofs.v (every such text is now "not a number", no panic). ---------- *)
+(* short_junk: one or two characters, the first not a digit, and not '.' digit: str[len(str)-3] panicked *)
 Definition dev_short_junk (t : list N) : bool :=
   match t with
   | [c] => negb (is_digit c)
   | [c; d] => negb (is_digit c) && negb ((c =? c_dot) && is_digit d)
   | _ => false
   end.
-
-(* hex_one_junk: "0x" + one character that is not a hex digit ("0x." "0xl" "0xu" "0xp"):
-   isLuajitHexInteger says true (loc == 0), two characters are cut off, "0" is parsed -> IntegerExp 0 *)
+(* hex_one_junk: "0x" + one character that is not a hex digit ("0x." "0xl" "0xu" "0xp") was IntegerExp 0 *)
 Definition dev_hex_one_junk (t : list N) : bool :=
   match t with [a; b; c] => (a =? c_0) && (b =? c_x) && negb (is_hex_lc c) | _ => false end.
-
-(* loc == 0 although the text is not made of digits: the LL/ULL suffix test is skipped *)
 Definition num_loc0 (t : list N) : bool :=
   match t with
   | a :: b :: c :: _ => if (a =? c_0) && (b =? c_x) then negb (is_hex_lc c) else negb (is_digit a)
   | a :: _ => negb (is_digit a)
   | [] => false
   end.
-(* what parseLuajitNum cuts off: three characters if the third-last is 'u', else two (for len >= 3) *)
-Definition strip23 (t : list N) : list N :=
-  let n := length t in
-  if nth (n - 3) t 0 =? c_u then firstn (n - 3) t else firstn (n - 2) t.
-Definition lastn (n : nat) (s : list N) : list N := skipn (length s - n) s.
-(* hex_cut: loc == 0, the cut text contains "0x" and, after its first two characters, is longer than 16
-   characters of which the last 16 are hex digits (".0x0000000000000001ll", "0x.0000000000000001ll"):
-   "cut long hex string" throws the junk away -> IntegerExp of the last 16 hex digits.
-   (A valid hex float such as 0x.00000000000000001p1 also has this shape, but is accepted as a float before.) *)
+(* hex_cut: ".0x0000000000000001ll", "0x.0000000000000001ll" were IntegerExp of the last 16 hex digits *)
 Definition dev_hex_cut (t : list N) : bool :=
   num_loc0 t &&
   let u := strip23 t in
